@@ -140,9 +140,55 @@ func checkC20(c *Ctx) {
 							}
 						}
 					}
+					// a counter of the timeouts / votes that pass a test while ranging over the collected ones
+					// (`n := 0; for _, t := range s.timeouts { if t.View == v { n++ } }`): C08.3 ties it to the list that is returned
+					if ph, ok := v.(*ssa.Phi); ok {
+						if base := elementCounterBase(ph); base != nil {
+							if ts := base.Type().String(); strings.Contains(ts, "TimeoutMsg") || strings.Contains(ts, "PartialCert") {
+								lenOfVotes[fl.K.Key(v)] = true
+							}
+						}
+					}
 				}
+				// a participant/vote/timeout count, or a parameter of a private helper that every caller binds to one
+				// (`vm.quorumReached(len(votes))`)
 				isCount := func(k string) bool {
-					return strings.HasPrefix(k, kPartLen) || lenOfVotes[k] || strings.HasPrefix(k, "invoke (hs.IDSet).Len(")
+					if strings.HasPrefix(k, kPartLen) || lenOfVotes[k] || strings.HasPrefix(k, "invoke (hs.IDSet).Len(") {
+						return true
+					}
+					if hf == fn || len(k) < 2 || k[0] != 'p' {
+						return false
+					}
+					idx := 0
+					for _, ch := range k[1:] {
+						if ch < '0' || ch > '9' {
+							return false
+						}
+						idx = idx*10 + int(ch-'0')
+					}
+					callers := callIndexOf(p).callers[hf]
+					if len(callers) == 0 || callIndexOf(p).asValue[hf] {
+						return false
+					}
+					for _, r := range callers {
+						ci, ok := r.Instr.(ssa.CallInstruction)
+						if !ok || idx >= len(ci.Common().Args) {
+							return false
+						}
+						a := ci.Common().Args[idx]
+						ak := NewKeyer(p, r.In).Key(a)
+						okA := strings.HasPrefix(ak, kPartLen) || strings.HasPrefix(ak, "invoke (hs.IDSet).Len(")
+						if call, isCall := a.(*ssa.Call); isCall {
+							if bi, isB := call.Call.Value.(*ssa.Builtin); isB && bi.Name() == "len" {
+								ts := call.Call.Args[0].Type().String()
+								okA = okA || strings.Contains(ts, "TimeoutMsg") || strings.Contains(ts, "PartialCert")
+							}
+						}
+						if !okA {
+							return false
+						}
+					}
+					return true
 				}
 				// QuorumSize() itself, a local holding it, or a parameter of a private helper that every caller binds to it
 				isQ := func(k string) bool {
